@@ -59,7 +59,7 @@ func TestVerifC16(t *testing.T) {
 	out := vharness.Open()
 	defer out.Close()
 	rng := vharness.Rng()
-	budget := vharness.Budget(500, 30000)
+	budget := vharness.Budget(500, 10000)
 	T := func(k, stamp uint64) vsched.NotifyOp { return vsched.NotifyOp{Kind: "touch", K: k, V: stamp} }
 	scenarios := []vsched.NotifyScenario{
 		{CallsA: 1, Ops: []vsched.NotifyOp{T(1, 1)}},
